@@ -315,7 +315,7 @@ func reportProperty(ps *PropSpec, res *PropResult, tier string, seed int, t0 tim
 		rf := &ReplayFile{Property: id, Obligation: o.Name, Kind: o.Kind, Function: o.Fn, Position: o.Pos, Status: o.Result.Status,
 			Solvers: o.Result.All, SolverOut: firstLines(o.Result.Output, 60)}
 		nofail := true
-		if o.Result.Status == "sat" || o.Relaxed {
+		if o.Result.Status == "sat" || o.Relaxed || (o.Ctx != nil && o.Ctx.fn != nil && hasScenarioDriver(o)) {
 			rf.Model = parseValues(o.Result.Output)
 			rr := tryReplay(o, rf.Model, repo, res.Workdir)
 			rf.Replay = rr
@@ -429,6 +429,17 @@ func (e *Engine) lemmaObligation(name string) *Obligation {
 			c := e.newFnCtx(nil, nil)
 			if ax.Floats == "ieee" {
 				c.floatsIEEE = true
+			}
+			// a lemma X_base / X_step is the induction base / step of the axiom X: X itself is not available to
+			// its own proof (nor is anything listed after "without=")
+			c.excludedAxioms = map[string]bool{}
+			for _, suf := range []string{"_base", "_step"} {
+				if strings.HasSuffix(name, suf) {
+					c.excludedAxioms[strings.TrimSuffix(name, suf)] = true
+				}
+			}
+			for _, u := range ax.Uses {
+				c.excludedAxioms[u] = true
 			}
 			env := &CEnv{c: c, names: map[string]Val{}, st: newState()}
 			t, err := env.evalBool(ax.Body)
